@@ -187,6 +187,19 @@ func ruleLoadAndPrune(c *Ctx) {
 		}
 		c.Check(okNext, c.Prop+"/paging", "next start id in "+fnName(fn), "the next page starts at (last decoded id) + 1", P.pos(fn.Pos()), "")
 		okEnd := limitArg != nil && hasComparison(fn, "<", lenOf(anyVal), same(limitArg))
+		if !okEnd && limitArg != nil {
+			// the same comparison kept in a flag (`more = len(page) >= limit`; `for more`)
+			for _, b := range fn.Blocks {
+				for _, ins := range b.Instrs {
+					if bo, ok := ins.(*ssa.BinOp); ok && (bo.Op == token.LSS || bo.Op == token.GEQ) && lenOf(anyVal)(bo.X) && sameVal(bo.Y, limitArg) {
+						okEnd = true
+					}
+					if bo, ok := ins.(*ssa.BinOp); ok && (bo.Op == token.GTR || bo.Op == token.LEQ) && lenOf(anyVal)(bo.Y) && sameVal(bo.X, limitArg) {
+						okEnd = true
+					}
+				}
+			}
+		}
 		c.Check(okEnd, c.Prop+"/paging", "termination in "+fnName(fn), "loading stops only on a page shorter than the limit that was requested", P.pos(fn.Pos()), "the compared limit is not the requested one")
 		c.need(c.Prop+"/paging", fn, "successful return", func(x ssa.Instruction) bool { r, ok := x.(*ssa.Return); return ok && retIsNilErr(r) },
 			[]Ev{guardRel("len(page) < limit", "<", lenOf(anyVal), anyVal)}, all, "success is reported only after a short (last) page")
@@ -774,6 +787,7 @@ func init() {
 			ruleStaleReportsItself(c)
 			ruleEveryRecordDelivered(c)
 			ruleScanCoversAllIDs(c)
+			ruleFlushReachesRegionStorage(c)
 			ruleWeightsOfTheLoadedStore(c)
 		})
 		c.Group("C17/weights-written", "SaveStoreWeight writes both weight keys unconditionally", func() { ruleWeightsAlwaysWritten(c) })
@@ -1058,5 +1072,23 @@ func ruleWeightsOfTheLoadedStore(c *Ctx) {
 	}
 	if n < 2 {
 		c.Undec(rule, "weight lookups in "+fnName(fn), "2 (leader, region)", "", fmt.Sprint(n))
+	}
+}
+
+// ruleFlushReachesRegionStorage: Storage.Flush and Storage.Close hand on to the
+// region storage whenever there is one — whichever backend new writes go to at
+// the moment. Regions buffered while the option was on are otherwise left in the
+// batch when the process stops.
+func ruleFlushReachesRegionStorage(c *Ctx) {
+	P := c.P
+	rule := c.Prop + "/batch-buffer"
+	rsF := P.Field("server/core", "Storage", "regionStorage")
+	for _, sp := range []struct{ name, callee string }{{"Flush", "FlushRegion"}, {"Close", "Close"}} {
+		fn := P.Method("server/core", "Storage", sp.name)
+		inner := F(P.Method("server/core", "RegionStorage", sp.callee))
+		reached := &calledEv{name: "regionStorage." + sp.callee + "()", match: instrCallMatcher(inner)}
+		none := guardRel("no region storage", "==", loadOfField(rsF), isNilConst)
+		c.need(rule, fn, "return", func(x ssa.Instruction) bool { _, ok := x.(*ssa.Return); return ok }, []Ev{reached, none}, anyOf,
+			"the region storage is flushed / closed whenever it exists")
 	}
 }
